@@ -352,12 +352,12 @@ def brute_force_all_pairs(basis, pos_to, pos_from, red):
     return L - L.min(axis=2, keepdims=True), v @ M
 
 
-def reduced_inputs(run, C, basis, pos_to, pos_from, model_window, sp=None):
+def reduced_inputs(run, C, basis, pos_to, pos_from, model_window, sp=None, tol=SYMPREC):
     """Inputs of the model derived from PUBLIC entry points only: the reduced basis from cells.get_reduced_bases (the public function
     ShortestPairs itself calls), the integer change of basis, the positions folded with x - rint(x), and the model's own 65-point
     window.  Returns (lattice_points, supercell_fracs, primitive_fracs, trans_mat_inv, reduced_bases) like the former private hook.
     If the private hook `ShortestPairs._transform_cell_basis` still exists its values are compared as an optional refinement."""
-    red = np.array(C.get_reduced_bases(basis, tolerance=SYMPREC))
+    red = np.array(C.get_reduced_bases(basis, tolerance=tol))
     tm = np.rint(np.dot(basis, np.linalg.inv(red))).astype(int)
     tmi = np.rint(np.linalg.inv(tm)).astype(int)
     sfr = np.dot(pos_to, tm)
@@ -754,6 +754,102 @@ def main(run):
                 run.violation("get_smallest_vectors(store_dense_svecs=True)", "not-minimum-images-relabelled",
                               "pair (%d,0) of the relabelled (%s) description: stored vectors are not the exhaustive minimum images" % (k, tag), dict(case, pair=[k, 0]))
 
+    # ------------------------------------------------------------ Primitive path with NON-DEFAULT symmetry tolerance
+    # Two-sublattice cells whose second atom is displaced from a Wigner-Seitz corner/edge/face of the first, so that the tied image
+    # lengths split by delta; Primitive(..., symprec=s) and Phonopy(..., symprec=s).primitive must store every image within s of the
+    # minimum (delta <= s/10) and none beyond (delta >= 10 s) - the tolerance of the OBJECT, not the default 1e-5. Reference:
+    # exhaustive enumeration with |r| - min|r| < s (pairs with an image between s/10 and 10 s are skipped), and the model's
+    # tolerance rule (svecstol) with tol = s on the public reduced basis.
+    from phonopy import Phonopy
+    from phonopy.structure.atoms import PhonopyAtoms as _PA
+    from phonopy.structure.cells import Primitive as _Prim
+
+    sp_cases = [(1e-3, 1e-4), (1e-2, 1e-3), (1e-2, 1e-4), (1e-7, 1e-6), (1e-3, 1e-2)] + ([(1e-2, 1e-1), (1e-7, 1e-8), (1e-3, 3e-5)] if thorough else [])
+    for s_tol, dlt in sp_cases:
+        a = Fr(rng.choice([3, 4, 5]))
+        cc = a * rng.choice([Fr(1), Fr(5, 4), Fr(3, 2)])
+        Bx = [[a, Fr(0), Fr(0)], [Fr(0), a, Fr(0)], [Fr(0), Fr(0), cc]]
+        basisu = ffloat(Bx)
+        spot = rng.choice([[H, H, H], [H, H, Fr(0)], [H, Fr(0), Fr(0)], [Fr(0), H, H]])
+        u = np.array([rng.gauss(0, 1) for _ in range(3)])
+        u /= np.linalg.norm(u)
+        eps = [Fr(float(x)) for x in (dlt / 2) * u @ np.linalg.inv(basisu)]
+        upos = [[Fr(0)] * 3, [spot[k] + eps[k] for k in range(3)]]
+        ucell = _PA(cell=basisu, symbols=["Cs", "Cl"], scaled_positions=np.array([[float(x) for x in p] for p in upos]))
+        smat = rng.choice([np.eye(3, dtype=int), np.diag([2, 1, 1]), np.diag([2, 2, 1]), np.diag([2, 2, 2])])
+        try:
+            sc = quiet(get_supercell, ucell, smat, symprec=s_tol)
+            objs = []
+            for dense in (True, False):
+                objs.append(("Primitive(symprec=%g).get_smallest_vectors" % s_tol, dense, quiet(_Prim, sc, np.linalg.inv(smat), symprec=s_tol, store_dense_svecs=dense)))
+            ph = quiet(Phonopy, ucell, supercell_matrix=smat, primitive_matrix="P", symprec=s_tol, log_level=0)
+            objs.append(("Phonopy(symprec=%g).primitive.get_smallest_vectors" % s_tol, True, ph.primitive))
+            sc_api = ph.supercell
+        except Exception as e:
+            run.violation("Primitive(symprec=%g)" % s_tol, "valid-cell-rejected-symprec", "%s: %s" % (type(e).__name__, str(e)[:120]),
+                          dict(basis=basisu.tolist(), positions=[[str(x) for x in p] for p in upos], supercell_matrix=smat.tolist(), symprec=s_tol))
+            continue
+        case = dict(basis=basisu.tolist(), positions=[[str(x) for x in p] for p in upos], supercell_matrix=smat.tolist(), symprec=s_tol, displacement=dlt)
+        run.case(("prim-symprec", s_tol, dlt, tuple(map(tuple, upos)), smat.tolist()), nontrivial=True)
+        run.count("Primitive path symprec=%g, tie split %g (%s)" % (s_tol, dlt, "must store" if dlt < s_tol else "must not store"))
+        for site, dense, pr in objs:
+            scx = sc_api if site.startswith("Phonopy") else sc
+            p2s = np.array(pr.p2s_map)
+            redx = np.array(C.get_reduced_bases(scx.cell, tolerance=s_tol))
+            excess, vall = brute_force_all_pairs(scx.cell, scx.scaled_positions, scx.scaled_positions[p2s], redx)
+            sel = excess < s_tol
+            grey = ((excess > s_tol / 10) & (excess < s_tol * 10)).any(axis=2)
+            sv, mu = pr.get_smallest_vectors()
+            if not dense:
+                sv, mu = sparse_to_dense_svecs(sv, mu)
+            tmat = np.rint(scx.cell @ np.linalg.inv(pr.cell))
+            nbad = 0
+            first = None
+            for i, j in np.argwhere(~grey):
+                run.count("oracle-primitive-symprec", section="oracle")
+                m, adr = int(mu[i, j, 0]), int(mu[i, j, 1])
+                if not same_set(sv[adr:adr + m], vall[i, j][sel[i, j]] @ tmat, 30.0):
+                    nbad += 1
+                    first = first or (int(i), int(j), m, int(sel[i, j].sum()))
+            if nbad:
+                i, j, m, mw = first
+                run.violation(site, "tolerance-not-honoured" + ("-tie-missing" if m < mw else "-non-tie-stored"),
+                              "%d pairs wrong; pair (%d,%d) stores %d vectors, %d images lie within symprec=%g of the minimum length "
+                              "(tied lengths split by about %g)" % (nbad, i, j, m, mw, s_tol, dlt), dict(case, dense=dense, pair=[i, j]))
+        # the model's tolerance rule with tol = s on the first Primitive object (dense)
+        pr = objs[0][2]
+        p2s = np.array(pr.p2s_map)
+        Gx = fmul(fmul(ftr([[int(x) for x in r] for r in smat]), fmul(Bx, ftr(Bx))), [[int(x) for x in r] for r in smat])
+        Minv_s = np.linalg.inv(smat)
+        px = []
+        for k in range(len(sc)):
+            # exact supercell positions: the implementation's float position is (lp + x_u) S^-T folded into [0,1)
+            v = sc.scaled_positions[k]
+            best = None
+            for uu in range(2):
+                for lpt in itertools.product(range(0, 3), repeat=3):
+                    cand = [sum((Fr(lpt[m_]) + upos[uu][m_]) * Fr(int(round(Minv_s[l, m_] * 8)), 8) for m_ in range(3)) for l in range(3)]
+                    cand = [x - (x.numerator // x.denominator) for x in cand]
+                    if max(abs(float(cand[l]) - v[l]) for l in range(3)) < 1e-9:
+                        best = cand
+            px.append(best)
+        if any(x is None for x in px):
+            run.count("Primitive symprec stream: exact positions not recoverable (model skipped)")
+            continue
+        lp, sfr, pfr, tmi, redb = reduced_inputs(run, C, sc.cell, sc.scaled_positions, sc.scaled_positions[p2s], model_window, tol=s_tol)
+        er = exact_reduced(Gx, px, sfr, tmi)
+        if er is None:
+            run.count("Primitive symprec stream: exact reduction not recoverable (model skipped)")
+            continue
+        Gred, exact_to = er
+        tmat = np.rint(sc.cell @ np.linalg.inv(pr.cell)).astype(int)
+        Ttot = tmat.T @ np.array(tmi).T
+        sv, mu = pr.get_smallest_vectors()
+        lines.append("svecstol %s %s %s %d %s %d %d %s %s" % (q(Fr(s_tol).limit_denominator(10 ** 9)), qs(flat(Gred)), ints(Ttot), len(lp), ints(lp), len(exact_to), len(p2s),
+                                                              qs(flat(exact_to)), qs(flat([exact_to[k] for k in p2s]))))
+        meta.append(("svecstol", dict(case, path="Primitive"), (sv, mu, 30.0)))
+
+
     # the same through Primitive.get_smallest_vectors(): relabelled supercell (same atom order) and primitive matrix M^-T P M^T
     from phonopy.structure.atoms import PhonopyAtoms
     from phonopy.structure.cells import get_primitive_matrix_by_centring as _pmc
@@ -953,8 +1049,14 @@ def main(run):
             vec = np.array([float(Fr(x)) for x in tk[npair:]]).reshape(-1, 3)
             if counts != [int(x) for x in dmu[:, :, 0].ravel()]:
                 run.broke("correspondence", "near-tolerance: multiplicities %s differ from the model's tolerance rule %s" % (dmu[:, :, 0].ravel().tolist(), counts), case)
-            elif np.abs(vec - dsv).max() > TOL * scale:
-                run.broke("correspondence", "near-tolerance: stored vectors differ from the model by %.3g" % np.abs(vec - dsv).max(), case)
+            else:
+                k0 = 0
+                for i in range(dmu.shape[0]):
+                    for j in range(dmu.shape[1]):
+                        m, adr = int(dmu[i, j, 0]), int(dmu[i, j, 1])
+                        if not same_set(dsv[adr:adr + m], vec[k0:k0 + m], scale * 1e-3):
+                            run.broke("correspondence", "near-tolerance: stored vectors of pair (%d,%d) differ from the model's tolerance rule" % (i, j), case)
+                        k0 += m
         elif kind == "spec":
             got, d, T, scale = impl
             tk = o.split()
